@@ -467,6 +467,8 @@ pub fn alphabet() -> (Vec<In>, Vec<In>) {
             (true, mk(None, ScEv::Step(false, step.clone(), 0, StepEv::Skipped))),
             (false, mk(Some((0, 1)), ScEv::Step(false, step.clone(), 0, StepEv::Skipped))),
             (true, mk(None, ScEv::Step(true, (*bg).to_owned(), 0, StepEv::Skipped))),
+            // a skipped background step of an attempt that carries a retry counter
+            (ci == 1, mk(Some((0, 2)), ScEv::Step(true, (*bg).to_owned(), 0, StepEv::Skipped))),
             (ci == 0, mk(None, ScEv::Step(false, step.clone(), 0, StepEv::Failed("boom".into(), None)))),
             (false, mk(Some((1, 0)), ScEv::Step(false, step.clone(), 0, StepEv::Failed("boom".into(), None)))),
             (false, mk(None, ScEv::Step(true, (*bg).to_owned(), 0, StepEv::Failed("boom".into(), None)))),
